@@ -8,7 +8,7 @@ from typing import Any, Dict, List
 
 from .. import gen, hta
 from ..core import Prop
-from .common import case_from_cfg, write_and_load
+from .common import case_from_cfg, draw_prefix, write_and_load
 
 TYPES = {"critical_path_operator": "op", "critical_path_dependency": "dep", "critical_path_kernel_launch_delay": "launch",
          "critical_path_kernel_kernel_delay": "k2k", "critical_path_sync_dependency": "sync"}
@@ -51,6 +51,7 @@ def gen_cp_case(rng: random.Random, tier: str) -> Dict[str, Any]:
     case["ann"] = rng.choice(["ProfilerStep", "ProfilerStep", "", "## backward ##"])
     case["inst"] = rng.choice(["none", "k", "range"])
     case["iseed"] = rng.randrange(1000)
+    case["prefix"] = draw_prefix(rng)
     return case
 
 
